@@ -126,6 +126,25 @@ def main():
         shutil.rmtree(scratch, ignore_errors=True)
     known, fixed = load_known()
     violations, knowns, undecided = [], [], []
+    static_facts = []
+    if prop == "C20":
+        # supporting static fact (syntactic, from the extraction report; NOT a proof obligation): functions that run only inside bounded plain
+        # harnesses (most of cJSON_Utils.c) have no DFCC frame check, so a mutable function-local static there would escape the assigns
+        # obligations.  Rule R3 reports every function-local static it hoists; a mutable one outside the inventory below is shared state.
+        allowed = {("cJSON.c", "cJSON_Version", "version")}   # written by cJSON_Version only (not one of the operations C20 ranges over)
+        for line in report:
+            m = re.match(r"R3 (\S+): (\w+)::(\w+) -> file-scope (\w+) \[(const|mutable)\]", line)
+            if m:
+                static_facts.append(line)
+                if m.group(5) == "mutable" and (m.group(1), m.group(2), m.group(3)) not in allowed:
+                    os.makedirs(os.path.join(VERIF, "replays"), exist_ok=True)
+                    path = os.path.join(VERIF, "replays", "C20_static_%s_%s.txt" % (m.group(2), m.group(3)))
+                    open(path, "w").write("property: C20\nfailed obligation: static-inventory (supporting static fact, tools/annotate.py rule R3)\n"
+                        "finding: function %s in %s declares the mutable function-local static `%s`: an object of static storage duration that every thread calling the function shares, "
+                        "outside the documented shared state (global error record, hooks).\nextraction report line: %s\n" % (m.group(2), m.group(1), m.group(3), line))
+                    print("VIOLATION property=C20 replay=%s no-failing-input-found" % path)
+                    print("  mutable function-local static %s::%s in %s (static inventory)" % (m.group(2), m.group(3), m.group(1)))
+                    violations.append((None, {"name": "static-inventory", "desc": line, "file": m.group(1), "line": 0, "function": m.group(2), "status": "FAILURE", "tags": ["C20"]}, {}))
     n_ob = n_ok = 0
     n_ob_b = n_ok_b = 0
     per_unit = []
@@ -168,6 +187,9 @@ def main():
         print("KNOWN-FINDING: property=%s %s [unit %s obligation %s]" % (prop, k["text"], u.name, o["name"]))
     shown = {}
     for i, (u, o, r) in enumerate(violations):
+        if u is None:          # static-inventory finding, already reported above
+            rc = 1
+            continue
         shown[u.name] = shown.get(u.name, 0) + 1
         if shown[u.name] > 3:      # at most three VIOLATION lines per unit; the rest is summarised below and in the evidence
             continue
@@ -200,6 +222,7 @@ def main():
         "not_decided_here": info.get("not_decided", []),
         "known_findings_printed": [k["text"] for (_, _, k) in knowns],
         "explanation": info.get("explanation", ""),
+        "static_inventory": static_facts,
         # generic fallback keys (for properties whose deciding units are all bounded)
         "evaluations": len(per_unit), "distinct_nontrivial": n_ob + n_ob_b,
         "rule": "one evaluation = one proof unit (function under contract); distinct_nontrivial = obligations generated by CBMC/DFCC that are attributed to this property",
